@@ -93,28 +93,14 @@ func TestC20(t *testing.T) {
 	// no instrumentation at all (nothing shared between harness goroutines, bare divider, Handle
 	// touching only its argument), the caller keeps writing to its Inputs map, Stop / cancel
 	// also immediately after the constructor: only the race detector looks at these runs
-	r.Parallel(t, "bare-priority", r.Cfg.pick(400, 8000)/scale, func(t *testing.T, idx int, rng *rand.Rand) {
-		sc := genPrioBareScenario(rng)
-		res := runPrioBare(sc)
-		r.Eval(1)
-		switch {
-		case res.Rejected:
-			r.Count("rejected_by_constructor", 1)
-		case res.Stuck != "":
-			r.Inconclusive("bare real-clock priority scenario did not finish: " + res.Stuck + " " + jsonString(sc))
-		default:
-			r.Count("bare.scenarios."+sc.Ver, 1)
-			r.Count("bare.writes_to_the_callers_inputs_map", int64(res.MapWrites))
-			r.Count("bare.control_calls", int64(res.CtlCalls))
-			if res.EarlyStop {
-				r.Count("bare.stop_or_cancel_right_after_construction", 1)
-			}
-			if res.TwoControllers && res.CtlCalls >= 2 {
-				r.Count("bare.v1_scenarios_with_two_concurrent_control_goroutines", 1)
-			}
-			r.NonTrivial("bare:" + jsonString(sc))
+	bare := func(earlyStopOnly bool) func(t *testing.T, idx int, rng *rand.Rand) {
+		return func(t *testing.T, idx int, rng *rand.Rand) {
+			bareCase(r, genPrioBareScenario(rng, earlyStopOnly))
 		}
-	})
+	}
+	r.Parallel(t, "bare-priority", r.Cfg.pick(400, 8000)/scale, bare(false))
+	// the same, but every run stops a v1 discipline (mostly Simple) right after its constructor
+	r.Parallel(t, "bare-v1-stop-right-after-construction", r.Cfg.pick(250, 4000)/scale, bare(true))
 	r.Parallel(t, "real-join-copy", r.Cfg.pick(200, 4000)/scale, joinReal(joinGen{Discs: discs, NoCopy: -1, Retain: true, Real: true}))
 	r.Parallel(t, "real-join-nocopy", r.Cfg.pick(200, 4000)/scale, joinReal(joinGen{Discs: discs, NoCopy: 1, Retain: true, Real: true}))
 	r.Parallel(t, "real-join-v1-stop", r.Cfg.pick(150, 3000)/scale, joinReal(joinGen{Discs: []string{"v1join"}, Stop: 1, Real: true}))
@@ -126,4 +112,26 @@ func TestC20(t *testing.T) {
 		}
 	})
 	r.processCensus("real-all")
+}
+
+func bareCase(r *Run, sc PrioRealScenario) {
+	res := runPrioBare(sc)
+	r.Eval(1)
+	switch {
+	case res.Rejected:
+		r.Count("rejected_by_constructor", 1)
+	case res.Stuck != "":
+		r.Inconclusive("bare real-clock priority scenario did not finish: " + res.Stuck + " " + jsonString(sc))
+	default:
+		r.Count("bare.scenarios."+sc.Ver, 1)
+		r.Count("bare.writes_to_the_callers_inputs_map", int64(res.MapWrites))
+		r.Count("bare.control_calls", int64(res.CtlCalls))
+		if res.EarlyStop {
+			r.Count("bare.stop_or_cancel_right_after_construction", 1)
+		}
+		if res.TwoControllers && res.CtlCalls >= 2 {
+			r.Count("bare.v1_scenarios_with_two_concurrent_control_goroutines", 1)
+		}
+		r.NonTrivial("bare:" + jsonString(sc))
+	}
 }
